@@ -297,7 +297,7 @@ func C_two_in_flight() {
 func genC06(tier string, seed int64) (*Family, error) {
 	fam := &Family{
 		Prop: "C06", Files: map[string]string{},
-		Bounds:    map[string]interface{}{"pool": "(1,2) and (2,3)", "requests": "<= 3 per scenario, <= 2 keys each, symbolic values", "overlap": "a second request runs while the first is blocked inside a rule"},
+		Bounds:    map[string]interface{}{"pool": "(1,2), (2,3) and (1,3)", "requests": "<= 3 per scenario, <= 2 keys each, symbolic values", "overlap": "a second request runs while the first is blocked inside a rule"},
 		Cfg:       interp.Config{MaxSteps: 6_000_000, TrackFields: []string{"engine.Gengine.returnResult", "context.DataContext.base"}, TrackAllocs: []string{"eMsg"}},
 		Functions: []string{"engine.GenginePool).prepareWithMultiInput", "engine.GenginePool).prepare", "engine.gengineWrapper).clearInjected", "engine.GenginePool).getGengine", "engine.GenginePool).putGengineLocked", "DataContext).Del"},
 	}
@@ -548,6 +548,91 @@ func O_overlap() {
 	vnd.Reach("executed")
 }
 `)
+	b.WriteString(`
+// three overlapping requests on a (1,3) pool: two are blocked inside rule a while the third runs completely
+func O_overlap3() {
+	gp := zzReqPool(1, 3)
+	var gate sync.Mutex
+	gate.Lock()
+	r := []int64{vnd.Int64("r1"), vnd.Int64("r2"), vnd.Int64("r3")}
+	res := make([]map[string]interface{}, 3)
+	var wg sync.WaitGroup
+	for k := 0; k < 2; k++ {
+		k := k
+		wg.Add(1)
+		go func() {
+			defer wg.Done()
+			_, res[k] = gp.ExecuteSelectedRules(map[string]interface{}{"req": r[k], "resp": int64(k), "ev": func(s string) {
+				vnd.Event("q" + strconv.Itoa(k) + ":" + s)
+				if s == "a.s" {
+					gate.Lock() // blocks until the host lets go
+					gate.Unlock()
+				}
+			}}, []string{"a"})
+		}()
+		vnd.Quiesce() // request k is now blocked inside rule a, holding an instance
+	}
+	_, res[2] = gp.ExecuteSelectedRules(map[string]interface{}{"req": r[2], "resp": int64(2)}, []string{"a"})
+	gate.Unlock()
+	wg.Wait()
+	vnd.Quiesce()
+	for k := 0; k < 3; k++ {
+		x, ok := res[k]["a"].(int64)
+		vnd.Assert(ok, "every request got its result")
+		vnd.Assert(x == r[k], "each of three overlapping requests reads only its own data")
+	}
+	vnd.NoRaces("context.DataContext.base")
+	vnd.NoRaces("engine.Gengine.returnResult")
+	vnd.Reach("executed")
+}
+
+type zzSink struct {
+	mu   sync.Mutex
+	Vals []int64
+}
+
+func (s *zzSink) Put(v int64) {
+	vnd.Event("put.s")
+	s.mu.Lock()
+	s.Vals = append(s.Vals, v)
+	s.mu.Unlock()
+	vnd.Event("put.e")
+}
+
+type zzReq struct {
+	Id   int64
+	Sink *zzSink
+}
+
+// a rule whose conc block works on the request: everything it started has finished when the pool call returns
+func L4_conc_members() {
+	apis := zzApis()
+	apis["same"] = func(x int64) int64 { return x }
+	gp, e := NewGenginePool(1, 2, SortModel, "rule \"a\" begin\n conc {\n  req.Sink.Put(same(req.Id))\n  x = same(req.Id)\n  req.Put2(req.Id)\n }\n return x\nend\n", apis)
+	zzMust(e, "pool construction")
+	for round := 0; round < 3; round++ {
+		id := vnd.Int64("id")
+		rq := &zzReq{Id: id, Sink: &zzSink{}}
+		err, res := gp.ExecuteSelectedRules(map[string]interface{}{"req": rq}, []string{"a"})
+		vnd.Event("ret")
+		vnd.RequireJoined("ret")
+		vnd.StopIfViolated()
+		vnd.Assert(err == nil, "the request succeeds")
+		x, ok := res["a"].(int64)
+		vnd.Assert(ok && x == id, "the result is computed from this request")
+		rq.Sink.mu.Lock()
+		n := len(rq.Sink.Vals)
+		rq.Sink.mu.Unlock()
+		vnd.Assert(n == 2, "every member of the block has delivered into this request's object before the call returns")
+		vnd.Quiesce()
+	}
+	vnd.Reach("executed")
+}
+
+func (r *zzReq) Put2(v int64) { r.Sink.Put(v) }
+`)
+	fam.Instances = append(fam.Instances, Instance{Func: "O_overlap3", Stratum: "overlap", Desc: "three overlapping requests on a (1,3) pool", Expect: []string{"executed"}},
+		Instance{Func: "L4_conc_members", Stratum: "L4", Desc: "members of a conc block (three-level, assignment, method) are finished when the pool call returns", Expect: []string{"executed"}})
 	fam.Instances = append(fam.Instances, Instance{Func: "O_overlap", Stratum: "overlap", Desc: "two overlapping requests", Expect: []string{"executed"}},
 		Instance{Func: "L5_local_does_not_leak", Stratum: "L5", Desc: "rule locals of an earlier request are invisible to later requests", Expect: []string{"executed"}})
 	finishPoolFamily(fam, "C06", b.String())
